@@ -23,6 +23,7 @@ worker() {
     sig=$(echo "$res" | grep -o "^  C[0-9][0-9]/[^:]*" | head -1 | tr -d ' ')
     case "$rc" in 1) r="KILLED $sig";; 0) r=SURVIVED;; *) r="rc=$rc $(echo "$res" | tail -1 | cut -c1-100)";; esac
     echo "$res" | grep -q "reason=build-failed" && r="NOT-APPLICABLE (applies textually but no longer compiles: superseded by a repair)"
+    [ -n "$(jq -r '.out_of_scope // ""' $d/meta.json)" ] && r="$r [outside the property's quantifier: $(jq -r .out_of_scope $d/meta.json | cut -c1-90)]"
     [ -n "$(jq -r '.obsolete // ""' $d/meta.json)" ] && r="$r [marked obsolete: $(jq -r .obsolete $d/meta.json | cut -c1-90)]"
     echo "$name $id $r"
   done
